@@ -3,6 +3,13 @@
 import json, sys
 
 CLAIMED = {
+ "C02": dict(
+   category="model_checking",
+   text="(a) Explicit-state BFS to closure over revision chains r1{a,b} <- r2{a,b,c} <- r3{a,c,d} of hand-made ObjectSets with previous lists (each revision's phase local or delegated; collisionProtection Prevent / IfNoController / None) and over an ObjectDeployment rolling T1{a,b} -> T2{a,c} -> T1: reconciles of all ObjectSets, ObjectSetPhases and the ObjectDeployment in every order, the user pausing / archiving / deleting any revision mid-handover, garbage collector. (b) Stateless exploration at API-call granularity: two revisions' passes as threads with a scheduling point before every request, all interleavings with <= 2 (quick) / 3 (thorough) preemptions after atomic warm-up prefixes. Monitor on every effective write to a managed object: the recorded revision never decreases; at most one controller afterwards; when the controller changes, the new one is the writing ObjectSet/phase, the object's previous revision is not higher than the writer's, and every former controller is still listed as plain owner. State invariant: no object is controlled by an owner whose revision is lower than the object's recorded revision.",
+   design_ref="DESIGN.md §7 C02",
+   note="Trusted: kmodel (one-controller validation, SSA ownerReferences merge by uid); native owner strategy in chains.",
+   technique="explicit-state model checking (BFS) + preemption-bounded stateless exploration of API-call interleavings, trace monitor and state invariant",
+   engine="world"),
  "C09": dict(
    category="model_checking",
    text="Explicit-state BFS to closure (4 systems quick, ~66 000 states; 8 thorough) over the real ObjectSet, ObjectSetPhase and ObjectDeployment controllers with: the user pausing/unpausing the ObjectSet or the ObjectDeployment at any point of rollout and handover (template edit T1{a,b}->T2{a,c}), workload status changes, a third party deleting, modifying or re-owning managed objects (drift), garbage collector. Monitors: in every pass of an owner whose spec the pass read as paused (not terminating/archived) there is no effective create/update/patch/delete on any object listed in it, the pass still persists Paused (True; Unknown only while delegated phases have not confirmed) and an Available condition for the current generation whose status equals an independent reference probing of what the cache shows; in every pass of a paused ObjectDeployment no ObjectSet is created, archived or deleted and (once all revisions have reported their number) every non-archived revision ends paused; an unpaused ObjectDeployment switches to Active only revisions carrying the paused-by-parent marker and leaves none of them paused-by-parent.",
